@@ -248,6 +248,30 @@ theorem region_maps_exact_pages (cursor frame size flags : W)
       refine ⟨?_, hpage, trivial⟩
       rw [← hcp]; exact h1
 
+/-- **region_fail_pure** — a `MapRegion` request that does not fit (the page-rounded size exceeds
+the space below the cursor) fails, maps nothing and leaves the cursor where it was. -/
+theorem region_fail_pure (cursor frame size flags : W) (failAt : Option Nat)
+    (h : ¬ ceilPages size.toNat * 4096 ≤ cursor.toNat) :
+    (mapRegion cursor frame size flags failAt).ok = false ∧
+    (mapRegion cursor frame size flags failAt).cursor = cursor ∧
+    (mapRegion cursor frame size flags failAt).calls = [] := by
+  unfold mapRegion
+  by_cases hw : roundWraps size = true
+  · simp [hw]
+  · have hw' : roundWraps size = false := by simpa using hw
+    simp only [hw', Bool.false_eq_true, if_false]
+    have hr := roundUp_toNat size hw'
+    have hnone : earlyReserve cursor (roundUp size) = none := by
+      cases he : earlyReserve cursor (roundUp size) with
+      | none => rfl
+      | some a =>
+        exfalso
+        have := (fits_iff cursor (roundUp size)).1 (by simp [he])
+        rw [hr] at this
+        unfold ceilPages at *
+        omega
+    simp [hnone]
+
 /-! ## Non-vacuity: concrete instances of the hypotheses -/
 
 example : earlyReserve tempMappingAddrW 4097#64 = some (tempMappingAddrW - 8192#64) := by decide
